@@ -4,6 +4,7 @@
 -/
 import SigV4.Model.Validate
 import SigV4.Model.Observe
+import SigV4.Model.Requirements
 import SigV4.Model.Keys
 import SigV4.Model.Sha256
 
@@ -263,6 +264,25 @@ def step (line : String) : String :=
         | .panic p => s!"PANIC {p.replace " " "_"}"
       | .err k => s!"ERR {k.name}"
       | .panic p => s!"PANIC {p.replace " " "_"}"
+    | none => "bad-op"
+  | ["REQOPS", ops] =>
+    -- ops: comma-separated <code><hex>; codes A I P add, a i p remove (always / if-in-request / prefix)
+    let parsed : Option (List ReqOp) := (splitList ops ",").mapM fun item =>
+      match unhex (item.drop 1).toString with
+      | some h =>
+        match item.toList.head? with
+        | some 'A' => some (.addAlways h)
+        | some 'I' => some (.addIfInRequest h)
+        | some 'P' => some (.addPrefix h)
+        | some 'a' => some (.removeAlways h)
+        | some 'i' => some (.removeIfInRequest h)
+        | some 'p' => some (.removePrefix h)
+        | _ => none
+      | none => none
+    match parsed with
+    | some l =>
+      let r := l.foldl Requirements.apply Requirements.empty
+      s!"{hexList r.always} {hexList r.ifInRequest} {hexList r.prefixes}"
     | none => "bad-op"
   | "OBS" :: rest => match parseCase rest with
     | some c =>
